@@ -11,12 +11,21 @@ def prop( pid, rules, decides, not_decided, technique, thorough_rules=(), assump
                        assumptions=list( assumptions ))
 
 
-prop( 'C05', [ 'T-ALLOWED' ],
-      decides='T-ALLOWED: every cell of the Logix write type-compatibility table admits only request types whose whole value '
+prop( 'C05', [ 'S-STATUS', 'D-VALIDATE', 'W-ATTR', 'T-ALLOWED' ],
+      decides='S-STATUS: typestate of data.status over the statement CFG of every CIP request handler - at every statement inside '
+              'the try that may raise, the status is a known non-success constant (so a refused request is answered with a failure), '
+              'the handler never re-raises or resets it, and at the named program points of Logix.request the codes are 0x05 (resolve/lookup), '
+              '0xFF/0x2107 (type assert), 0xFF/0x2105 (reply_elements); UCMM converts any exception to a non-zero encapsulation status. '
+              'D-VALIDATE: the type assert and the reply_elements call dominate the only tag store (with correlated-branch pruning), the '
+              'stored slice is the validated (beg,end), reply_elements has a raising guard for each of the range obligations '
+              '0<=beg<cnt, elm<=cnt, beg<end, write end<=requested end (comparators checked), Attribute slices cannot truncate/extend, '
+              'and the exact byte-count assert dominates the Set Attribute Single store.  W-ATTR: every statement of the request-processing '
+              'functions that can mutate an Attribute is reachable only for write services (service feasibility by folding the '
+              'dispatch tests).  T-ALLOWED: every cell of the Logix write type-compatibility table admits only request types whose whole value '
               'range is contained in the tag type\'s range (interval containment over the struct formats), so an acknowledged '
               'write can always be re-encoded by the tag\'s type.',
       not_decided='that values read back equal the converted values written (value/history dependent).',
-      technique='table extraction from AST + interval containment; status typestate on a statement CFG; dominance' )
+      technique='constant typestate on a statement CFG with exception edges; dominance / must-pass-through with correlated branches; service feasibility by test folding; table interval containment' )
 
 prop( 'C12', [ 'T-CLIENT-TYPES' ],
       decides='T-CLIENT-TYPES: every client.CIP_TYPES row takes (tag_type, size) from the parser class of its own name and its '
@@ -46,3 +55,43 @@ prop( 'C20', [ 'T-TNET' ],
               'colon and slices exactly the declared length, and the streaming machine has a DATA edge for every tag its TYPE state handles.',
       not_decided='value round trip for all values, nesting depth, chunking (dynamic).',
       technique='encoder/decoder idiom classification over dispatch chains (AST pattern matching); grammar extraction' )
+
+prop( 'C03', [ 'W-ATTR', 'R-SNAPSHOT', 'D-TYPE', 'T-TYPENAMES' ],
+      decides='storage-discipline clauses only.  W-ATTR: tags are mutated only by statements reachable for the write services '
+              '(Write Tag, Write Tag Fragmented, Set Attribute Single) - no read service and no refused request changes a tag; '
+              'R-SNAPSHOT: element ranges are read and written by one list operation and produce() iterates a slice copy; '
+              'D-TYPE: the read reply\'s .type/.structure_tag come from the tag\'s own parser and the data from attribute[beg:end]; '
+              'T-TYPENAMES: every configurable type name creates the parser class of that name with a zero/empty default of the Python type its '
+              'struct format packs.',
+      not_decided='read-your-writes over request histories, slice index arithmetic, symbolic-name resolution, per-element isolation (value/history dependent).',
+      technique='who-may-write analysis via service feasibility on the CFG; AST shape checks; table checks' )
+
+prop( 'C06', [ 'X-SERVICES', 'P-REPLYBIT', 'P-ONE', 'D-ECHO', 'S-STATUS' ],
+      decides='X-SERVICES: for Object, Message_Router, Connection_Manager and Logix the registered service parsers, the services '
+              'request() dispatches and the services produce() encodes agree, and every *_RPY constant is *_REQ | 0x80; '
+              'P-REPLYBIT: on every path of every handler to the reply producer the reply bit is set at most once, exactly once on '
+              'every non-raising path and on every path that reports success; every normal exit produced a reply or delegated; '
+              'P-ONE: per iteration of the TCP/UDP connection loop exactly one enip_process call (outside the frame-parsing loop), at most '
+              'one send, the send control-dependent on a truthy result and carrying enip_encode( data.response.enip ) of the same iteration, '
+              'no thread/queue in the handler; D-ECHO: the response is built as a structural copy of the request encapsulation, no '
+              'server-side store to sender_context/command/options, session_handle only in the Register branch (re-drawn while zero/in use), '
+              'Unregister sets proceed False and stores no payload; S-STATUS: any exception below UCMM ends as a non-zero status, never escapes.',
+      not_decided='framing of reply values, randomness of session handles, socket-level pipelining behaviour (dynamic).',
+      technique='sibling exhaustiveness (set comparison of folded constants); path effect counting on the CFG; must-pass-through; zero-count store rules' )
+
+prop( 'C17', [ 'T-CMP', 'T-DURATION' ],
+      decides='T-CMP: the six timestamp comparison operators form one family - __lt__/__gt__ shift by the class _epsilon = 10**-_precision, '
+              '__le__/__ge__/__eq__/__ne__ are their negations/disjunction - and render( ms=True )/__str__ use the same _precision, so '
+              'comparison and rendering resolution cannot drift apart; T-DURATION: each (unit, suffix) pair duration._format emits is the pair '
+              '_parse reads through the DURSPEC_RE group of that suffix (constant regex interpreted by stdlib re), units strictly descending, '
+              'each count taken from the remainder of the next larger unit, fraction padding consistent.',
+      not_decided='float rounding, time-zone/DST behaviour, millisecond fidelity of render/parse (numeric).',
+      technique='operator-family shape matching (AST patterns); unit/suffix table agreement incl. constant-regex group lookup' )
+
+prop( 'C18', [ 'T-RECORD', 'X-STATES' ],
+      decides='T-RECORD: logger.write emits exactly str(timestamp) TAB json(serial) TAB json(data) NEWLINE, parse_record splits at the first '
+              'two TABs only and decodes the same fields with the same default encoding, comment lines are written with "# " and skipped '
+              '(with blank lines) by the reader; X-STATES: every loader state has statename/statelogger entries, the declared order '
+              'INITIAL<...<COMPLETE<FAILED holds, truthiness is state < COMPLETE, only declared constants are assigned to the state.',
+      not_decided='exactly-once / in-order / on-time delivery against the clock (schedule and clock dependent).',
+      technique='writer/reader field-table agreement (AST patterns); state-table exhaustiveness' )
